@@ -652,7 +652,9 @@ func buildNJQuery(w *world, b baseSpec) payload {
 }
 
 func buildROI(w *world, b baseSpec) payload {
-	doc := []string{`[[0,0,0,1],[0,1,0,0],[1,1,0,1]]`, `[[2,3,4,5]]`, `[]`, `[[0,0,0,0],[0,0,1,1],[0,0,2,2]]`, `[[-1,-1,-2,-1],[0,0,0,3]]`}[b.A%5]
+	// the last two are well-formed JSON but internally inconsistent span lists (a run that ends before it starts)
+	doc := []string{`[[0,0,0,1],[0,1,0,0],[1,1,0,1]]`, `[[2,3,4,5]]`, `[]`, `[[0,0,0,0],[0,0,1,1],[0,0,2,2]]`, `[[-1,-1,-2,-1],[0,0,0,3]]`,
+		`[[0,0,5,1]]`, `[[0,0,0,1],[0,1,3,2],[1,1,0,1]]`}[b.A%7]
 	return jsonPayload("roi/roi", "POST", "node/"+w.root+"/roi/roi", doc, []string{"roi"})
 }
 
